@@ -2405,7 +2405,7 @@ class GtkDocCommentBlockWriter(object):
             lines = []
 
             # Identifier part
-            if block.name.startswith('SECTION') or block.name.startswith('ACTION'):
+            if block.name.startswith('SECTION:') or block.name.startswith('ACTION:'):
                 lines.append(block.name)
             else:
                 if block.annotations:
